@@ -254,5 +254,22 @@ func c05Worker(c *core.Collector, x *Ctx) {
 		}
 		run("random-large", fs, r.Intn(4), r, true)
 	})
+	// robustness outside the defined behaviour: contradictory totals, repeated packet 1, numbers beyond an earlier total.
+	// The property does not say what is delivered here, only that the server is not disturbed: the oracle is "no panic".
+	ng := c.N(3000, 100000)
+	core.ParallelFor(ng, ncpu(), func(i int) {
+		r := core.NewRand(c.Seed, "c05g", uint64(i))
+		pairs := [][2]uint16{{2, 1}, {5, 4}, {5, 5}, {1, 1}, {3, 3}, {3, 1}, {2, 3}, {65535, 1}, {65535, 65535}, {4, 1}, {2, 2}, {0, 1}, {1, 0}, {300, 256}, {256, 1}, {3, 2}, {4, 4}}
+		id := core.Pick(r, []uint16{0x0801, 0x0704})
+		var fs [][]byte
+		for k := 2 + r.Intn(7); k > 0; k-- {
+			pr := pairs[r.Intn(len(pairs))]
+			fs = append(fs, hookFrame(false, id, r.U16(), true, pr[0], pr[1], r.Bytes(r.Intn(10))))
+			if r.Chance(1, 4) {
+				fs = append(fs, hookFrame(false, 0x0002, r.U16(), false, 0, 0, nil))
+			}
+		}
+		run("sub-package games (no-crash oracle only)", fs, r.Intn(3), r, false)
+	})
 	c.Floor("orders_enumerated", 100)
 }
